@@ -2,6 +2,11 @@
 //@ assume: opaque external types (Difficulty, Strain, ManiaDifficultyObject) and external_body contracts for the callees of `next`: Strain::process / cloned_difficulty_value do not touch the calculator's bookkeeping; increment_combo adds one hold note exactly for non-circles (its combo arithmetic is float code, exercised by Kani in U12.mania.protocol.*)
 //@ assume: TYPE ABSTRACTION (disclosed rewrite of types, not of code): Verus refuses `f64 * f64` without a precondition it cannot discharge, so the star value is given the opaque type `Stars` (with an external `Mul`), i.e. `cloned_difficulty_value() * DIFFICULTY_MULTIPLIER` is type-checked against opaque operands; the function text is unchanged. Data shapes declared by hand: NoteState {curr_combo, n_hold_notes}, ManiaDifficultyAttributes {stars, max_combo, n_objects, n_hold_notes, is_convert}
 //@ assume: A-INV as for U12.mania.len.verus
+//@ obl: id=U12.mania.nth.verus fn=ManiaGradualDifficulty::nth props=C15,C02,C05 tier=quick kind=proof twin=yes pair=U12.mania.protocol.n2
+//@ fns: ManiaGradualDifficulty::nth (Iterator::nth), ManiaGradualDifficulty::len
+//@ bound: unbounded: every object count (also limited calculators), every position, every n (incl. usize::MAX)
+//@ clause: for ALL N and n: pre: invariant. post: Some iff n < remaining; exactly min(n+1, remaining) values are consumed; the returned value reports n_objects == idx'; the hold-note counter grows by the number of non-circles among the consumed objects other than the first; invariant preserved; indices in bounds; no overflow
+//@ assume: R10 (zip form): A.iter().zip(B.iter().skip(1)).skip(S).take(T) pairs A[k] with B[k+1] for k = S, S+1, ... while both are in range, at most T pairs; R11; local verified cmp::min
 //@ obl: id=U12.mania.next.verus fn=ManiaGradualDifficulty::next props=C15,C02,C05 tier=quick kind=proof twin=yes pair=U12.mania.protocol.n2
 //@ fns: ManiaGradualDifficulty::next (Iterator::next)
 //@ bound: unbounded: every object count (also calculators created with a passed_objects limit), every position
@@ -9,6 +14,14 @@
 use vstd::prelude::*;
 verus! {
 global size_of usize == 8;
+
+/// std::cmp::min on usize (verified local definition; the extracted code calls `cmp::min`)
+pub mod cmp {
+    use vstd::prelude::*;
+    pub fn min(a: usize, b: usize) -> (r: usize)
+        ensures r == if a <= b { a } else { b }
+    { if a <= b { a } else { b } }
+}
 
 #[verifier::external_body] pub struct Difficulty { _p: () }
 #[verifier::external_body] pub struct Strain { _p: () }
@@ -64,6 +77,49 @@ impl ManiaGradualDifficulty {
     pub closed spec fn remaining(&self) -> int {
         if self.objects_is_circle@.len() == 0 { 0 } else { self.diff_objects@.len() + 1 - self.idx }
     }
+
+    /// number of non-circles among objects lo..hi
+    pub open spec fn holds(c: Seq<bool>, lo: int, hi: int) -> int
+        decreases hi - lo
+    {
+        if hi <= lo { 0 } else { Self::holds(c, lo, hi - 1) + (if c[hi - 1] { 0int } else { 1int }) }
+    }
+
+/*@extract fn file=src/mania/difficulty/gradual.rs impl=ExactSizeIterator for=ManiaGradualDifficulty name=len ret=r
+@spec
+        requires self.inv()
+        ensures r == self.remaining()
+*/
+
+/*@extract fn file=src/mania/difficulty/gradual.rs impl=Iterator for=ManiaGradualDifficulty name=nth ret=r subst=Self::Item=>ManiaDifficultyAttributes
+@spec
+        requires old(self).inv()
+        ensures
+            final(self).inv(),
+            final(self).objects_is_circle@ == old(self).objects_is_circle@,
+            final(self).diff_objects@.len() == old(self).diff_objects@.len(),
+            r.is_some() <==> n < old(self).remaining(),
+            final(self).idx == old(self).idx + (if n < old(self).remaining() { n + 1 } else { old(self).remaining() }),
+            r.is_some() ==> r.unwrap().n_objects == final(self).idx as u32 && r.unwrap().n_hold_notes == final(self).note_state.n_hold_notes,
+            final(self).note_state.n_hold_notes as int == old(self).note_state.n_hold_notes
+                + Self::holds(old(self).objects_is_circle@, (if old(self).idx == 0 { 1int } else { old(self).idx as int }), (if final(self).idx == 0 { 1int } else { final(self).idx as int })),
+@loop 1
+            invariant
+                self.inv(),
+                self.objects_is_circle@ == old(self).objects_is_circle@,
+                self.diff_objects@.len() == old(self).diff_objects@.len(),
+                old(self).idx <= self.idx,
+                __skip_iter_k + 1 == self.idx || __skip_iter_take == 0,
+                self.idx + (__skip_iter_take - __skip_iter_c) == old(self).idx + take0,
+                __skip_iter_c <= __skip_iter_take,
+                take0 == 0 || old(self).idx + take0 <= old(self).diff_objects@.len(),
+                take0 as int == (if n < old(self).remaining() - 1 { n as int } else if old(self).remaining() == 0 { 0 } else { old(self).remaining() - 1 }),
+                self.note_state.n_hold_notes as int == old(self).note_state.n_hold_notes
+                    + Self::holds(old(self).objects_is_circle@, (if old(self).idx == 0 { 1int } else { old(self).idx as int }), (if self.idx == 0 { 1int } else { self.idx as int })),
+            decreases __skip_iter_take - __skip_iter_c
+@before 1 `if self.idx == 0 && take > 0 {`
+        let ghost take0 = take;
+*/
 
 /*@extract fn file=src/mania/difficulty/gradual.rs impl=Iterator for=ManiaGradualDifficulty name=next ret=r subst=Self::Item=>ManiaDifficultyAttributes
 @spec
